@@ -7,6 +7,13 @@ CLAIMED = {
  "C17": dict(text="Lean theorems for all widths/values/bit strings (round trip, range, surjectivity, inverse conversions); exhaustive correspondence of the real codecs with the model on small widths plus boundary widths for the bit count",
              note="math.log(w,2) truncation is tied to floor(log2 w) only at the sampled/boundary widths; model adequacy by correspondence",
              tech="Lean 4 proof (induction on bit lists) + exhaustive model/implementation correspondence", ref="§5 C17"),
+ "C02": dict(text="Lean theorems: compare = -1/1/0 exactly per the constraint-first Better relation, for every linear order, length and direction assignment; antisymmetry, irreflexivity, twins, transitivity. Exact (rational, +-inf) correspondence with the real ParetoDominance on exhaustive small grids and random special doubles, through fresh and shared comparator instances",
+             note="NaN objectives excluded (no linear order); model adequacy by correspondence", tech="Lean 4 proof (induction over the flag loop) + exact model/implementation correspondence", ref="§5 C02"),
+ "C03": dict(text="Lean theorem archive_eq_filter: after ANY insertion history the archive, as a list, equals the offered list filtered by 'no offered solution dominates me', for any antisymmetric transitive comparator (instantiated with the proved Pareto comparator); accept-iff, reject-unchanged, mutual non-dominance, coverage, permutation invariance. Trace correspondence of add/append/extend/+= histories incl. exhaustive short histories",
+             note="model adequacy by correspondence (identity-based membership modelled by ids)", tech="Lean 4 proof (induction over the insertion history) + trace correspondence", ref="§5 C03"),
+ "C11": dict(text="Lean theorems over any linearly ordered commutative ring: violation = 0 iff relation, > 0 otherwise, monotone away from the feasible side, total = sum |.|, feasible iff all relations hold, feasible beats infeasible; the expression grammar (regex + operator table) modelled and proved to accept every operator/whitespace/token combination and reject malformed ones. Float wire bit-exact + exact wire on dyadic cases, exhaustive over the grammar",
+             note="Python float() literal grammar and float rounding of |x-y|+delta are parameters (exercised, not proved); sum() is CPython's",
+             tech="Lean 4 proof (case analysis per operator; list lemmas for the regex matcher) + bit-exact correspondence", ref="§5 C11"),
 }
 PENDING = {}
 def main():
